@@ -183,3 +183,25 @@ def _mk_divide_line(n, tiers, timeout):
 for _n, _t, _to in [(2, ("quick", "thorough"), 120), (3, ("quick", "thorough"), 300), (4, ("quick", "thorough"), 900),
                     (5, ("thorough",), 2400), (6, ("thorough",), 3400)]:
     _mk_divide_line(_n, _t, _to)
+
+
+# --- wrapping does not depend on what was wrapped before (P) -----------------------------------------------------------------
+_HIST_TEXTS = ["supercalifragilistic word", "ab 中文中文中文 cd", "a bc def"]
+
+
+@symx("C02-wrap-history-independence", timeout=600, kind="P", functions=F_W,
+      bounds="%d texts x width 2..8: wrapping the text with overflow in {crop, ellipsis, ignore} or with another width FIRST, then "
+             "with fold (same process, real caches): the fold result equals the result of a fresh fold wrap and keeps every "
+             "non-whitespace character" % len(_HIST_TEXTS))
+def c02_history(e):
+    s = _HIST_TEXTS[int(e.mk("text", 0, len(_HIST_TEXTS) - 1))]
+    w = int(e.mk("width", 2, 8))
+    first = ["crop", "ellipsis", "ignore", "fold"][int(e.mk("first_overflow", 0, 3))]
+    w0 = w if e.mkbool("same_width") else w + 1
+    c = cat.console()
+    Text(s).wrap(c, w0, overflow=first)
+    got = [l.plain for l in Text(s).wrap(c, w, overflow="fold")]
+    chars = "".join("".join(ch for ch in l if not ch.isspace()) for l in got)
+    if chars != "".join(ch for ch in s if not ch.isspace()):
+        return False
+    return all(rw(l) <= w for l in got)
